@@ -5,7 +5,7 @@ CONSTANTS Operands <- OperandsA
  LongOperands <- OperandsA
  LongOps <- OpsAll
  LongPres <- PresAll
- GoRemainder = FALSE
+ GoRemainder = TRUE
  Emit = FALSE
 SPECIFICATION Spec
 INVARIANTS Agreement
